@@ -26,6 +26,8 @@ func init() {
 }
 
 var c17Controls = []Control{
+	{Name: "slash-appended-to-a-bracket-at-its-close", Rule: "R17i", WantKey: "regexpNext#the clause that closes a bracket", File: "pattern/pattern.go",
+		Mutate: ctlReplaceAnywhere("\t\t\t\tbsb.WriteByte(']')\n\t\t\t\tsb.WriteString(bsb.String())", "\t\t\t\tif filenames {\n\t\t\t\t\tbsb.WriteByte('/')\n\t\t\t\t}\n\t\t\t\tbsb.WriteByte(']')\n\t\t\t\tsb.WriteString(bsb.String())")},
 	{Name: "escaped-character-read-as-one-byte", Rule: "R17h", WantKey: "regexpNext#rune of a pattern byte 1", File: "pattern/pattern.go",
 		Mutate: ctlReplaceAnywhere("\t\tc = sl.next()\n\t\tif c == '\\x00' {\n\t\t\treturn &SyntaxError{msg: `\\ at end of pattern`}\n\t\t}\n", "\t\tif sl.i >= len(sl.s) {\n\t\t\treturn &SyntaxError{msg: `\\ at end of pattern`}\n\t\t}\n\t\tc = rune(sl.s[sl.i])\n\t\tsl.i++\n")},
 	{Name: "escaped-slash-in-a-bracket-not-recorded", Rule: "R17g", WantKey: "regexpNext#bsb.WriteString(regexp.QuoteMeta(string(c)))", File: "pattern/pattern.go",
@@ -69,6 +71,8 @@ func runC17(p *Prog, r *Result) {
 	if n := checkByteWidenedToRune(p, r, "R17h"); n == 0 {
 		r.Notef("R17h: package pattern converts no string byte to a rune on this tree")
 	}
+	r.Rule("R17i", "the clause that closes a bracket expression appends nothing to it but the closing bracket: an appended member would pair with a trailing literal dash", 1)
+	checkBracketCloserAddsNothing(p, r, "R17i")
 	r.Rule("R17f", "a string tested for a variable prefix and a variable suffix has the three lengths compared: the two are matched by disjoint parts", 1)
 	checkPrefixSuffixDisjoint(p, r, "R17f")
 }
